@@ -9,7 +9,7 @@ ID = "C02"
 RULE = (
     "Part 'graphs' (shards = k x ranges of graph masks): every DAG on k = 1..4 (quick) / 1..5 (thorough) labelled features whose edges "
     "respect one topological order (2^(k(k-1)/2) graphs) x a dangling Parent value 'ghost' on none or exactly one feature x every "
-    "permutation of the k lines x, when some feature has several parents (quick: only for k <= 3), the Parent values written as one "
+    "permutation of the k lines x, when some feature has several parents (quick: only for k <= 3; thorough: for k <= 4), the Parent values written as one "
     "comma list, as a repeated key, or as one comma list that names the first parent a second time; the five ids contain an escaped "
     "comma (%2C), a colon ('autoincrement:n1'), a quote, an underscore (SQL wildcard) next to a blank, and an escaped per-cent sign. "
     "For each import (real create_db, :memory:) every (feature, level in {None,1,2}, featuretype in {None,'exon',('exon','mRNA')}, "
@@ -122,7 +122,7 @@ def body(ch, ctx):
     lines = {}
     enc = lambda x: x.replace("%", "%25").replace(",", "%2C")
     # several parents are written as a comma list or by repeating the key (the rest of the file has nothing to repeat)
-    style = ch.choose("multi_parent_style", ("comma", "repeated", "comma+first-again")) if any(len(v) > 1 for v in parents_of.values()) and (k <= 3 or ctx.tier != "quick") else "comma"
+    style = ch.choose("multi_parent_style", ("comma", "repeated", "comma+first-again")) if any(len(v) > 1 for v in parents_of.values()) and (k <= 3 or (k == 4 and ctx.tier != "quick")) else "comma"
     for i in range(k):
         attrs = "ID=%s" % enc(names[i])
         if parents_of[i] and style == "comma+first-again" and len(parents_of[i]) > 1:
